@@ -882,3 +882,110 @@ theorem isDouble_zero_atoms (s : Sizes) (hb : s.boxSize = 0) (hx : s.xSize ≠ 0
   simp [isDouble, hb, hx, hn, pyIntDiv]
 
 end Infretis.Trr
+
+namespace Infretis.Trr
+
+/-- a TRR file: frames one after the other, each with its own byte order and precision -/
+def encodeFrames (frames : List (Endian × Nat × LFrame)) : Bytes :=
+  (frames.map (fun x => encodeFrame x.1 x.2.1 x.2.2)).flatten
+
+theorem length_encSec_mat (e : Endian) (w : Nat) (s : Option (List Bytes)) (h : MatOK w s) :
+    ((encSec e s).length : Int) = secSize w 9 s := by
+  cases s with
+  | none => simp [encSec, secSize]
+  | some l =>
+    obtain ⟨h9, hl⟩ := h
+    have hl' : ∀ x ∈ l.map (fileOrder e), x.length = w := by
+      intro x hx; rcases List.mem_map.mp hx with ⟨y, hy, rfl⟩; rw [length_fileOrder]; exact hl y hy
+    have := length_flatten_const w _ hl'
+    simp only [encSec, secSize, this, List.length_map, h9]
+
+theorem length_encSec_coord (e : Endian) (w n : Nat) (s : Option (List Bytes)) (h : CoordOK w n s) :
+    ((encSec e s).length : Int) = secSize w (n * 3) s := by
+  cases s with
+  | none => simp [encSec, secSize]
+  | some l =>
+    obtain ⟨hlen, hl, _⟩ := h
+    have hl' : ∀ x ∈ l.map (fileOrder e), x.length = w := by
+      intro x hx; rcases List.mem_map.mp hx with ⟨y, hy, rfl⟩; rw [length_fileOrder]; exact hl y hy
+    have := length_flatten_const w _ hl'
+    simp only [encSec, secSize, this, List.length_map, hlen]
+
+/-- for a size-consistent frame the seek offset of `skip_trr_data` is exactly the length of the data -/
+theorem skipOffset_encode (e : Endian) (w : Nat) (f : LFrame) (h : LOK w f) :
+    skipOffset (f.sizes w) = ((encodeData e f).length : Int) := by
+  simp only [skipOffset, LFrame.sizes, encodeData, List.length_append, Int.natCast_add,
+    length_encSec_mat e w _ h.hbox, length_encSec_mat e w _ h.hvir, length_encSec_mat e w _ h.hpres,
+    length_encSec_coord e w _ _ h.hx, length_encSec_coord e w _ _ h.hv, length_encSec_coord e w _ _ h.hf]
+  omega
+
+theorem frameLoop_frames : ∀ (frames : List (Endian × Nat × LFrame)) (pre : Bytes) (idx : Int) (k fuel : Nat),
+    (∀ x ∈ frames, LOK x.2.1 x.2.2) → k + 1 ≤ fuel →
+    frameLoop (pre ++ encodeFrames frames) (idx + (k : Int)) fuel pre.length idx
+      = .ok ((frames[k]?).map (fun x => (expectedHeader x.1 x.2.1 x.2.2, expectedData x.2.2))) := by
+  intro frames
+  induction frames with
+  | nil =>
+    intro pre idx k fuel _ hf
+    obtain ⟨fuel', rfl⟩ : ∃ f', fuel = f' + 1 := ⟨fuel - 1, by omega⟩
+    simp [encodeFrames, frameLoop, readHeader, readN]
+  | cons x rest ih =>
+    intro pre idx k fuel hall hf
+    obtain ⟨e, w, f⟩ := x
+    have hok : LOK w f := hall (e, w, f) (List.mem_cons_self)
+    obtain ⟨fuel', rfl⟩ : ∃ f', fuel = f' + 1 := ⟨fuel - 1, by omega⟩
+    have hall' : pre ++ encodeFrames ((e, w, f) :: rest)
+        = pre ++ (encodeHeader e w f ++ (encodeData e f ++ encodeFrames rest)) := by
+      simp [encodeFrames, encodeFrame]
+    rw [frameLoop, hall', List.drop_left, readHeader_encode e w f hok]
+    simp only []
+    have hdrop : List.drop (pre.length + (76 + 2 * w)) (pre ++ (encodeHeader e w f ++ (encodeData e f ++ encodeFrames rest)))
+        = encodeData e f ++ encodeFrames rest := by
+      rw [List.drop_length_add_append, List.drop_left' (length_encodeHeader e w f hok)]
+    cases k with
+    | zero =>
+      simp only [Int.natCast_zero, Int.add_zero, if_true, hdrop, readData_encode e w f hok]
+      simp
+    | succ k' =>
+      have hne : ¬ (idx = idx + ((k' + 1 : Nat) : Int)) := by omega
+      simp only [hne, if_false]
+      have hpos : ((pre.length : Int) + ((76 + 2 * w : Nat) : Int) + skipOffset (expectedHeader e w f).sz)
+          = (((pre ++ encodeFrame e w f).length : Nat) : Int) := by
+        have : (expectedHeader e w f).sz = f.sizes w := rfl
+        rw [this, skipOffset_encode e w f hok]
+        simp only [encodeFrame, List.length_append, length_encodeHeader e w f hok, Int.natCast_add]
+        omega
+      rw [hpos]
+      have h1 : ¬ ((((pre ++ encodeFrame e w f).length : Nat) : Int) < 0) := by omega
+      have h2 : ¬ (idx + 1 > idx + ((k' + 1 : Nat) : Int)) := by omega
+      simp only [h1, h2, if_false, Int.toNat_natCast]
+      have := ih (pre ++ encodeFrame e w f) (idx + 1) k' fuel' (fun y hy => hall y (List.mem_cons_of_mem _ hy)) (by omega)
+      have e1 : (pre ++ encodeFrame e w f) ++ encodeFrames rest
+          = pre ++ (encodeHeader e w f ++ (encodeData e f ++ encodeFrames rest)) := by
+        simp [encodeFrame]
+      have e2 : idx + 1 + (k' : Int) = idx + ((k' + 1 : Nat) : Int) := by omega
+      rw [e1, e2] at this
+      rw [this]
+      simp
+
+/-- **`trr_frame_k`**: in a file of `m` size-consistent frames (each in its own byte order and precision),
+    `read_trr_frame(file, k)` returns exactly frame `k` for `k < m` and `(None, None)` for `k ≥ m`. -/
+theorem trr_frame_k (frames : List (Endian × Nat × LFrame)) (hall : ∀ x ∈ frames, LOK x.2.1 x.2.2) (k : Nat) :
+    (∀ hk : k < frames.length, readTrrFrame (encodeFrames frames) (k : Int)
+        = .ok (some (expectedHeader frames[k].1 frames[k].2.1 frames[k].2.2, expectedData frames[k].2.2)))
+    ∧ (frames.length ≤ k → readTrrFrame (encodeFrames frames) (k : Int) = .ok none) := by
+  have := frameLoop_frames frames [] 0 k (k + 1) hall (by omega)
+  simp only [List.nil_append, List.length_nil, Int.zero_add] at this
+  have hrt : readTrrFrame (encodeFrames frames) (k : Int) = frameLoop (encodeFrames frames) (k : Int) (k + 1) 0 0 := by
+    simp [readTrrFrame]
+  rw [hrt, this]
+  constructor
+  · intro hk; simp [List.getElem?_eq_getElem hk]
+  · intro hk; simp [List.getElem?_eq_none hk]
+
+example : readTrrFrame (encodeFrames [(.big, 4, exF), (.little, 4, exF), (.big, 4, exF)]) 1
+    = .ok (some (expectedHeader .little 4 exF, expectedData exF)) :=
+  (trr_frame_k [(.big, 4, exF), (.little, 4, exF), (.big, 4, exF)]
+    (by intro x hx; simp at hx; rcases hx with rfl | rfl | rfl <;> exact exF_ok) 1).1 (by decide)
+
+end Infretis.Trr
